@@ -19,6 +19,9 @@ pub struct Solution {
     pub continuous_sol: Option<ContinuousOutput>,
 }
 
+/// Slack of the range check of `sol`/`sol_many`; equals the tolerance of the segment lookup.
+const SPAN_TOL: Float = 1e-12;
+
 impl Solution {
     /// Evaluate the continuous solution at a single time t.
     /// Returns an error if continuous_sol was disabled or t is outside the covered range.
@@ -29,7 +32,9 @@ impl Solution {
             .ok_or(Error::Interpolation(InterpolationError::NotEnabled))?;
         let (start, end) = dense.t_span().ok_or(Error::Interpolation(InterpolationError::NotEnabled))?;
         let (lo, hi) = (start.min(end), start.max(end));
-        if t < lo || t > hi {
+        // same slack as the segment lookup: the last reported time may differ from the end of the
+        // last stored step by rounding
+        if t < lo - SPAN_TOL || t > hi + SPAN_TOL {
             return Err(Error::Interpolation(InterpolationError::OutOfRange {
                 t,
                 t_start: start,
@@ -53,7 +58,7 @@ impl Solution {
         let (start, end) = dense.t_span().ok_or(Error::Interpolation(InterpolationError::NotEnabled))?;
         let (lo, hi) = (start.min(end), start.max(end));
         for &t in ts {
-            if t < lo || t > hi {
+            if t < lo - SPAN_TOL || t > hi + SPAN_TOL {
                 return Err(Error::Interpolation(InterpolationError::OutOfRange {
                     t,
                     t_start: start,
